@@ -43,7 +43,7 @@ check("C08", "exploration",
 # properties deliberately not claimed (reason); anything else missing from CHECKS is listed as "not built yet"
 NOT_APPLICABLE = {}
 
-HOOK_COMMITS = ["45bc492", "e36cf10", "3319613", "69852e4", "ce43167"]
+HOOK_COMMITS = ["45bc492", "e36cf10", "3319613", "69852e4", "f4a53ae", "ce43167"]
 
 check("C14", "model_checking",
       "CircularBuf: BFS to closure over {write,take,close} histories for every capacity<=6 units x write size 1..3 x read size, "
@@ -176,3 +176,22 @@ check("C10", "fault_enumeration",
            "each must produce an error or exactly the original report, never a different report and never a panic; all inputs of "
            "length <= 2 and all length prefixes are shown not to crash the parser.",
       note="One fault per record; five representative records; fixed key material from VERIF_SEED.")
+
+check("C12", "exploration",
+      "truncation point n for a 9x6x6 (epsilon, delta, sensitivity) grid against an independent closed-form evaluation of the "
+      "documented tail condition (admissible and minimal, indeterminate band 1e-9); the real TruncatedDoubleGeometric sampler driven "
+      "by a scripted RngCore under an exhaustive weighted exploration of every Bernoulli outcome sequence down to path mass 1e-16, "
+      "normalised accepted mass compared with A*exp(-eps|x-n|) on 0..2n (1e-9); every support point x in 0..=2n forced through "
+      "sample_shares for widths 8/16/32 and both directions; NoiseParams::new / OPRFPaddingDp::new on the cross product of "
+      "per-parameter alphabets. distinct_nontrivial = distinct configurations / support points / parameter tuples executed.",
+      [{"name": "noise", "config": "A", "test": "protocol::dp::verif::c12::run",
+        "require": {"any": {"truncation_points_checked": 200, "distinct:sampler_configs": 6, "share_mapping_cases_w32": 50}}}],
+      assumptions=["rand::distributions::Bernoulli draws one u64 per sample and succeeds iff it is below p*2^64",
+                   "dummy-record sharings and the released-bucket identity (items 5, 6 of the design) are exercised through C01/C02 runs, not here"],
+      exhaustive=True, engine="E6 coin + E5 domain",
+      technique="weighted exhaustive exploration of the probabilistic sampler's coin tree (every outcome sequence above a mass floor, "
+                "exact path probabilities); exhaustive support-point and parameter-alphabet enumeration",
+      text="The sampler's output law is computed exactly from an exhaustive enumeration of its random choices and compared with the "
+           "documented truncated discrete Laplace law; every support value is pushed through the sample-to-share mapping at every "
+           "output width; truncation points and constructor ranges are checked against independent evaluations.",
+      note="Coin-tree residual mass < 1e-10; epsilon/delta outside the listed grid are not explored.")
